@@ -1142,3 +1142,35 @@ func inBytesNewReader(fr *frame, args []value) value {
 	cell := value(structure{args[0]})
 	return &cell
 }
+
+// (*url.URL).Hostname: the host without port.  For an abstract IRI it is an uninterpreted,
+// idempotent function of the host (so "host with a port" is a model in which they differ).
+func init() { intrinsics["(*net/url.URL).Hostname"] = inURLHostname }
+
+func inURLHostname(fr *frame, args []value) value {
+	p := derefPtr(args[0], "(*url.URL).Hostname")
+	st := fr.i.urlStruct()
+	h := (*p).(structure)[fr.i.fieldIndex(st, "Host")]
+	switch x := h.(type) {
+	case string:
+		u := url.URL{Host: x}
+		return u.Hostname()
+	case *sym:
+		pc := fr.i.pc
+		if x.s != sAtom {
+			panic(engineErr("Hostname of a URL whose host is a symbolic string"))
+		}
+		if !pc.ufDecl["host_name"] {
+			pc.ufDecl["host_name"] = true
+			pc.sol.send("(declare-fun host_name (Atom) Atom)\n")
+		}
+		t := "(host_name " + x.e + ")"
+		ax := "(= (host_name " + t + ") " + t + ")"
+		if !pc.known[ax] {
+			pc.assertTerm(ax)
+		}
+		pc.hostTerms = append(pc.hostTerms, x.e)
+		return &sym{s: sAtom, e: t, pc: pc}
+	}
+	panic(engineErr("Hostname: unexpected host value"))
+}
